@@ -286,9 +286,9 @@ c05!(c05_vec_u8_u16, FlatVec<u8, u16>, 10, 12);
 c05!(c05_vec_u8_u32, FlatVec<u8, u32>, 12, 14);
 c05!(c05_vec_u32_u8, FlatVec<u32, u8>, 12, 14);
 c05!(c05_string_u16, FlatString<u16>, 6, 8);
-c05!(c05_flex_u8_u8, FlexVec<u8, u8>, 6, 9);
-c05!(c05_flex_u16_u8, FlexVec<u16, u8>, 6, 9);
-c05!(c05_flex_vec_u8, FlexVec<FlatVec<u8, u8>, u8>, 5, 8);
+c05!(c05_flex_u8_u8, FlexVec<u8, u8>, 6, 8);
+c05!(c05_flex_u16_u8, FlexVec<u16, u8>, 6, 8);
+c05!(c05_flex_vec_u8, FlexVec<FlatVec<u8, u8>, u8>, 5, 7);
 c05!(c05_ustruct, UStruct, 12, 14);
 c05!(c05_upad, UPad, 24, 26);
 c05!(c05_uenum, UEnum, 16, 18);
@@ -300,12 +300,12 @@ c06!(c06_vec_u8_u16, FlatVec<u8, u16>, 10, 12, true, true);
 c06!(c06_vec_u8_u32, FlatVec<u8, u32>, 12, 14, true, true);
 c06!(c06_vec_u32_u8, FlatVec<u32, u8>, 12, 14, true, true);
 c06!(c06_string_u16, FlatString<u16>, 6, 8, true, true);
-c06!(c06_flex_u8_u8_prefix, FlexVec<u8, u8>, 6, 9, true, false);
-c06!(c06_flex_u8_u8_ext, FlexVec<u8, u8>, 6, 9, false, true);
-c06!(c06_flex_u16_u8_prefix, FlexVec<u16, u8>, 6, 9, true, false);
-c06!(c06_flex_u16_u8_ext, FlexVec<u16, u8>, 6, 9, false, true);
-c06!(c06_flex_vec_u8_prefix, FlexVec<FlatVec<u8, u8>, u8>, 5, 8, true, false);
-c06!(c06_flex_vec_u8_ext, FlexVec<FlatVec<u8, u8>, u8>, 5, 8, false, true);
+c06!(c06_flex_u8_u8_prefix, FlexVec<u8, u8>, 6, 8, true, false);
+c06!(c06_flex_u8_u8_ext, FlexVec<u8, u8>, 6, 8, false, true);
+c06!(c06_flex_u16_u8_prefix, FlexVec<u16, u8>, 6, 8, true, false);
+c06!(c06_flex_u16_u8_ext, FlexVec<u16, u8>, 6, 8, false, true);
+c06!(c06_flex_vec_u8_prefix, FlexVec<FlatVec<u8, u8>, u8>, 5, 7, true, false);
+c06!(c06_flex_vec_u8_ext, FlexVec<FlatVec<u8, u8>, u8>, 5, 7, false, true);
 c06!(c06_ustruct, UStruct, 12, 14, true, true);
 c06!(c06_upad, UPad, 24, 26, true, true);
 c06!(c06_uenum, UEnum, 16, 18, true, true);
